@@ -17,6 +17,7 @@ request for spec/storage/TraceStorageHTTP.tla.
 
 The driver abstracts values and compares nothing with an oracle: every verdict is TLC's.
 """
+from twisted.python.failure import Failure
 import argparse, hashlib, json, os, random, shutil, sys, tempfile
 from base64 import b64encode
 
@@ -76,11 +77,22 @@ class RecordingTreq:
         self.stub = stub
         self.codes = []
 
+    lose = 0        # how many of the next responses are lost on the way back (the server has handled the request)
+    nreq = 0
+
     def request(self, method, url, **kw):
+        self.nreq += 1
         d = self.stub.request(method, url, **kw)
+        drop = self.lose > 0
+        if drop:
+            self.lose -= 1
 
         def note(resp):
             self.codes.append(resp.code)
+            if drop:
+                from twisted.web._newclient import ResponseNeverReceived
+                from twisted.internet.error import ConnectionLost
+                raise ResponseNeverReceived([Failure(ConnectionLost("connection dropped before the response arrived"))])
             return resp
         d.addCallback(note)
         return d
@@ -798,11 +810,18 @@ def direct_call(d, writers, r):
     return {"st": "ok"}
 
 
-def exec_twin(g, h, d, writers, r, with_direct):
+def exec_twin(g, h, d, writers, r, with_direct, lose=False):
     before = h.digest()
+    h.rec.nreq = 0
+    h.rec.lose = 1 if lose else 0
     status, body, how = client_call(h, r)
+    h.rec.lose = 0
     same = h.digest() == before
     e = {"ev": "Req", "r": r, "status": status, "body": body, "hasdata": False, "same": same, "how": how}
+    if lose:
+        # the server handled the request, the answer never reached the client: the call either fails or reports the
+        # answer of that one application; the servers' states are those of one application
+        e["ev"], e["nreq"] = "ReqLost", h.rec.nreq
     if r["si"] in SI and not same:
         e["obs"] = h.obs(r["si"])
     if with_direct:
@@ -811,7 +830,11 @@ def exec_twin(g, h, d, writers, r, with_direct):
         e["d"] = {"res": res, "same": d.digest() == dbefore}
         if r["si"] in SI and not e["d"]["same"]:
             e["d"]["obs"] = d.obs(r["si"])
-    after(g, r, status, body)
+    if lose:
+        if r["ep"] == "abort" and e.get("d", {}).get("res", {}).get("st") == "ok":
+            g.uploads.pop((r["si"], r["sh"]), None)
+    else:
+        after(g, r, status, body)
     return e
 
 
@@ -836,14 +859,19 @@ TWIN = [("alloc", 12), ("write", 32), ("abort", 3), ("ilist", 4), ("iread", 10),
 TWIN_OPS = [o for o, w in TWIN for _ in range(w)]
 
 
-def twin_trace(rng, work, nevents, zero_read):
+TWIN_RTW = [("rtw", 40), ("mread", 8), ("mlist", 3), ("advance", 3), ("wrongenabler", 4), ("alloc", 3), ("write", 6), ("lease", 3)]
+TWIN_RTW_OPS = [o for o, w in TWIN_RTW for _ in range(w)]
+
+
+def twin_trace(rng, work, nevents, zero_read, focus=""):
     h, d = Server(work, True), Server(work, False)
     g = Gen(rng, 0)
     writers = {}
     events = []
     try:
         while len(events) < nevents:
-            op = rng.choice(TWIN_OPS)
+            op = rng.choice(TWIN_RTW_OPS if focus == "rtw" else TWIN_OPS)
+            lose = False
             if op == "advance":
                 events.append(advance_event(g, [h, d]))
                 continue
@@ -867,7 +895,8 @@ def twin_trace(rng, work, nevents, zero_read):
                 r = well_formed(g, h, op)
                 if op in ("write", "abort") and (r["si"], r["sh"]) in g.uploads and eff(r, "us") != g.uploads[(r["si"], r["sh"])][0]:
                     direct = False
-            events.append(exec_twin(g, h, d, writers, r, direct))
+                lose = direct and op == r["ep"] and op in ("rtw", "lease", "abort") and rng.random() < (0.3 if focus == "rtw" else 0.12)
+            events.append(exec_twin(g, h, d, writers, r, direct, lose=lose))
         if zero_read:
             # a read of length zero, of a share that exists
             cands = []
@@ -897,6 +926,7 @@ def main():
     ap.add_argument("--out"); ap.add_argument("--seed", type=int, default=0); ap.add_argument("--tier", default="quick")
     ap.add_argument("--in", dest="inp")
     ap.add_argument("--mode", default="authz"); ap.add_argument("--n", type=int, default=100); ap.add_argument("--events", type=int, default=30)
+    ap.add_argument("--focus", default="")
     a = ap.parse_args()
     rng = random.Random("http-%s-%d" % (a.mode, a.seed))
     work = tempfile.mkdtemp(prefix="httpdrv", dir="/dev/shm" if os.access("/dev/shm", os.W_OK) else None)
@@ -911,7 +941,7 @@ def main():
                 traces.append(authz_trace(rng, work, mine, max(0, a.events - per - 5)))
         else:
             for i in range(a.n):
-                traces.append(twin_trace(rng, work, a.events, zero_read=(i % 10 == 9)))
+                traces.append(twin_trace(rng, work, a.events, zero_read=(i % 10 == 9), focus=a.focus))
     finally:
         shutil.rmtree(work, ignore_errors=True)
     with open(a.out, "w") as f:
